@@ -19,7 +19,7 @@ PROPS = {
     },
     "C02": {
         "modules": ["contracts.c02_graph_sched", "contracts.c14_lifecycle", "contracts.c17_executor",
-                    "contracts.c18_node_scheduler", "contracts.c03_node", "contracts.c09_nested", "contracts.c12_switch"],
+                    "contracts.c18_node_scheduler", "contracts.c03_node", "contracts.c09_nested", "contracts.c12_switch", "contracts.c10_map"],
         "level": "proof",
         "design_ref": "DESIGN.md section 8, C02",
         "trusted_base": [
